@@ -8,6 +8,7 @@ import SodiumModel.Driver.C09
 import SodiumModel.Driver.C01
 import SodiumModel.Driver.C18
 import SodiumModel.Driver.C17
+import SodiumModel.Driver.C20
 open Sodium.Driver
 
 def handlers : List (String → List String → Option String) := [
@@ -18,7 +19,8 @@ def handlers : List (String → List String → Option String) := [
   Sodium.Driver.C04.handle,
   Sodium.Driver.C01.handle,
   Sodium.Driver.C18.handle,
-  Sodium.Driver.C17.handle
+  Sodium.Driver.C17.handle,
+  Sodium.Driver.C20.handle
 ]
 
 /-- state carried between op lines (stateful families only) -/
